@@ -77,5 +77,193 @@ theorem foldl_applyEvict_frame (evs : List Evicted) : ∀ (s : State),
     rw [ih (applyEvict s e)]
     rw [applyEvict_frame s e]
 
+@[simp] theorem applyEvict_lfu (s : State) (e : Evicted) : (applyEvict s e).lfu = s.lfu := by
+  rw [applyEvict_frame]
+@[simp] theorem applyEvict_cfg (s : State) (e : Evicted) : (applyEvict s e).cfg = s.cfg := by
+  rw [applyEvict_frame]
+@[simp] theorem applyEvict_adm' (s : State) (e : Evicted) : (applyEvict s e).adm = s.adm := by
+  rw [applyEvict_frame]
+@[simp] theorem foldl_applyEvict_lfu (evs : List Evicted) (s : State) : (evs.foldl applyEvict s).lfu = s.lfu := by
+  rw [foldl_applyEvict_frame]
+@[simp] theorem foldl_applyEvict_cfg (evs : List Evicted) (s : State) : (evs.foldl applyEvict s).cfg = s.cfg := by
+  rw [foldl_applyEvict_frame]
+
+/-! ## 2  the worker -/
+
+/-- The result of a Layer B run of the worker agrees with the result of the Layer A step:
+    same shared state, same oracle left over, the worker back at the head of its loop, no lock owned,
+    nothing else touched; an illegal event / oracle on one side is one on the other side. -/
+def WAgree (sw : SPc) (cl : List CPc) (res : List (List Out))
+    (ra : Except String (State × Out × Oracle)) (rb : Except String (BState × Oracle)) : Prop :=
+  match ra with
+  | .ok (g', _, o') => rb = .ok (⟨g', pcOfMode g'.worker, sw, cl, res, none, none⟩, o')
+  | .error _ => ∃ m, rb = .error m
+
+theorem worker_update (g : State) (sw : SPc) (cl : List CPc) (res : List (List Out)) (o : Oracle) (n : Nat)
+    (id : Nat) (w : Int) (h : Option Nat) (q : List (Cmd × Option Nat))
+    (hrun : g.worker = .running) (hq : g.queue = (.updateWeight id w, h) :: q) :
+    WAgree sw cl res (workerStep g o) (workerRun (n + 2) ⟨g, .recv, sw, cl, res, none, none⟩ o) := by
+  simp only [workerRun, workerAct, hq, workerStep, hrun, workerUpdateWeight, WPc.atHead, wuFree]
+  cases hk : g.adm.kw.get? id with
+  | none => simp [WAgree, finishCmd, pcOfMode, hrun]
+  | some wk =>
+    by_cases hc : (!inI64 (w - wk.weight) || !inI64 (g.adm.used + (w - wk.weight))) = true
+    · simp only [hc, if_true]; simp [WAgree, pcOfMode]
+    · simp only [hc, if_false]; simp [WAgree, finishCmd, pcOfMode]
+
+theorem worker_delete (g : State) (sw : SPc) (cl : List CPc) (res : List (List Out)) (o : Oracle) (n : Nat)
+    (k : Nat) (h : Option Nat) (q : List (Cmd × Option Nat))
+    (hrun : g.worker = .running) (hq : g.queue = (.delete k, h) :: q) :
+    WAgree sw cl res (workerStep g o) (workerRun (n + 5) ⟨g, .recv, sw, cl, res, none, none⟩ o) := by
+  simp only [workerRun, workerAct, hq, workerStep, hrun, workerDelete, WPc.atHead, wuFree, ttlFree]
+  cases hk : g.store.get? k with
+  | none => simp [WAgree, finishCmd, pcOfMode]
+  | some e =>
+    simp only []
+    cases hkw : g.adm.kw.get? e.id with
+    | none =>
+      cases hx : e.expiry with
+      | none => simp [WAgree, finishCmd, pcOfMode, Adm.delete, hkw]
+      | some x => simp [WAgree, finishCmd, pcOfMode, Adm.delete, hkw, ttlDelete]
+    | some wk =>
+      cases hx : e.expiry with
+      | none => simp [WAgree, finishCmd, pcOfMode, Adm.delete, hkw]
+      | some x => simp [WAgree, finishCmd, pcOfMode, Adm.delete, hkw, ttlDelete]
+
+/-- FINDING (model drift): on the `Shutdown` command Layer A records `worker := .draining` in the shared state,
+    Layer B only moves its pc to `.drain` and leaves `g.worker = .running`. Everything else agrees. -/
+theorem worker_shutdown (g : State) (sw : SPc) (cl : List CPc) (res : List (List Out)) (o : Oracle) (n : Nat)
+    (h : Option Nat) (q : List (Cmd × Option Nat))
+    (hrun : g.worker = .running) (hq : g.queue = (.shutdown, h) :: q) :
+    ∃ g' out, workerStep g o = .ok (g', out, o) ∧ g'.worker = .draining ∧
+      workerRun (n + 1) ⟨g, .recv, sw, cl, res, none, none⟩ o =
+        .ok (⟨{ g' with worker := .running }, .drain, sw, cl, res, none, none⟩, o) := by
+  simp [workerRun, workerAct, hq, workerStep, hrun, WPc.atHead, finishCmd]
+
+theorem worker_drain (g : State) (sw : SPc) (cl : List CPc) (res : List (List Out)) (o : Oracle) (n : Nat)
+    (hrun : g.worker = .draining) :
+    WAgree sw cl res (workerStep g o) (workerRun (n + 1) ⟨g, .drain, sw, cl, res, none, none⟩ o) := by
+  cases hq : g.queue with
+  | nil => simp [workerRun, workerAct, hq, workerStep, hrun, WAgree]
+  | cons c q =>
+    obtain ⟨cmd, h⟩ := c
+    simp [workerRun, workerAct, hq, workerStep, hrun, WPc.atHead, WAgree, finishCmd, pcOfMode]
+
+theorem worker_dead (g : State) (sw : SPc) (cl : List CPc) (res : List (List Out)) (o : Oracle) (n : Nat)
+    (hrun : g.worker = .dead) :
+    WAgree sw cl res (workerStep g o) (workerRun (n + 1) ⟨g, .dead, sw, cl, res, none, none⟩ o) := by
+  simp [workerRun, workerAct, workerStep, hrun, WAgree]
+
+theorem worker_empty (g : State) (sw : SPc) (cl : List CPc) (res : List (List Out)) (o : Oracle) (n : Nat)
+    (hrun : g.worker = .running) (hq : g.queue = []) :
+    WAgree sw cl res (workerStep g o) (workerRun (n + 1) ⟨g, .recv, sw, cl, res, none, none⟩ o) := by
+  simp [workerRun, workerAct, workerStep, hrun, hq, WAgree]
+
+/-- After the `Shutdown` command Layer B stands at `.drain` with `g.worker = .running` (see `worker_shutdown`);
+    from there it drains exactly as Layer A does in mode `.draining`. -/
+theorem worker_drain_B (g : State) (sw : SPc) (cl : List CPc) (res : List (List Out)) (o : Oracle) (n : Nat)
+    (hrun : g.worker = .running) :
+    match workerStep { g with worker := .draining } o with
+    | .ok (g', _, o') => workerRun (n + 1) ⟨g, .drain, sw, cl, res, none, none⟩ o =
+        .ok (⟨{ g' with worker := .running }, .drain, sw, cl, res, none, none⟩, o')
+    | .error _ => ∃ m, workerRun (n + 1) ⟨g, .drain, sw, cl, res, none, none⟩ o = .error m := by
+  cases hq : g.queue with
+  | nil => simp [workerRun, workerAct, hq, workerStep]
+  | cons c q =>
+    obtain ⟨cmd, h⟩ := c
+    simp [workerRun, workerAct, hq, workerStep, hrun, WPc.atHead, finishCmd]
+
+/-! ### puts -/
+
+/-- What is left of a put command once `maybe_add` has decided (`st`), as a function of the shared state `g` in which
+    the evictions are applied and `adm` is the admission state the loop ended in: the new shared state and
+    where the worker stands. Written the way Layer A (`workerPut` + `finish`) does it. -/
+def putEnd (g : State) (c : PutCmd) (st : Status) : State × WPc :=
+  if st = .accepted then
+    let s2 : State := { g with adm := g.adm.add c.id c.k c.hash c.w,
+                               stats := { g.stats with weightAdded := (g.stats.weightAdded + c.w.toNat) % u64Mod } }
+    match c.ttl with
+    | none =>
+      let s3 : State := { s2 with store := s2.store.set c.k { value := c.v, id := c.id, expiry := none, soft := false },
+                                  stats := { s2.stats with keysAdded := s2.stats.keysAdded + 1 } }
+      ({ s3 with acks := setAck s3.acks c.h .accepted }, .recv)
+    | some t =>
+      match addTime g.now t with
+      | none => ({ s2 with worker := .dead, queue := [] }, .dead)
+      | some e =>
+        let s3 : State := { s2 with store := s2.store.set c.k { value := c.v, id := c.id, expiry := some e, soft := false },
+                                    stats := { s2.stats with keysAdded := s2.stats.keysAdded + 1 } }
+        let s4 := ttlPut s3 c.id e
+        ({ s4 with acks := setAck s4.acks c.h .accepted }, .recv)
+  else
+    let s2 : State := { g with stats := { g.stats with keysRejected := g.stats.keysRejected + 1 } }
+    ({ s2 with acks := setAck s2.acks c.h st }, .recv)
+
+/-- Layer B from `insert` to the end of the command. -/
+theorem run_insert (g : State) (sw : SPc) (cl : List CPc) (res : List (List Out)) (o : Oracle) (n : Nat)
+    (c : PutCmd) (hn : 4 ≤ n) :
+    workerRun n ⟨g, .insert c, sw, cl, res, none, none⟩ o =
+      .ok (⟨(putEnd g c .accepted).1, (putEnd g c .accepted).2, sw, cl, res, none, none⟩, o) := by
+  obtain ⟨m, rfl⟩ : ∃ m, n = m + 4 := ⟨n - 4, by omega⟩
+  simp only [workerRun, workerAct, WPc.atHead, wuFree, ttlFree, putEnd]
+  obtain ⟨id, hash, w, k, v, ttl, h⟩ := c
+  cases ttl with
+  | none => simp [finishCmd, Adm.add]
+  | some t =>
+    cases he : addTime g.now t with
+    | none => simp [Adm.add, he]
+    | some e => simp [finishCmd, Adm.add, ttlPut, he]
+
+/-- Layer B through one eviction: `evRemove → evSub → evStore → evSpace → fill`, up to the next `loopDecide`. -/
+theorem run_evict (g : State) (sw : SPc) (cl : List CPc) (res : List (List Out)) (o : Oracle) (m : Nat)
+    (c : PutCmd) (incEst : Nat) (sample : List SKey) (k : SKey) (wk : WKey)
+    (hk : g.adm.kw.get? k.id = some wk) :
+    workerRun (m + 5) ⟨g, .evRemove c incEst sample k, sw, cl, res, none, none⟩ o =
+      match fillSample g.lfu (g.adm.kw.del k.id) (fillNeed g.cfg.sampleSize (g.adm.kw.del k.id) sample) sample o with
+      | .error e => .error e
+      | .ok (s'', o') =>
+        contRun m (loopDecide
+          ⟨applyEvict { g with adm := { g.adm with kw := g.adm.kw.del k.id, used := g.adm.used - wk.weight } }
+              (k.id, wk.key, wk.weight),
+            .fill c incEst sample (g.adm.max - (g.adm.used - wk.weight)), sw, cl, res, none, none⟩
+          c incEst s'' (g.adm.max - (g.adm.used - wk.weight)) o') := by
+  simp only [workerRun, workerAct, hk, contRun, WPc.atHead, wuFree]
+  simp
+  cases fillSample g.lfu (g.adm.kw.del k.id) (fillNeed g.cfg.sampleSize (g.adm.kw.del k.id) sample) sample o with
+  | error e => rfl
+  | ok r => rfl
+
+/-- THE HEART: Layer A's `createLoop` (which threads `Adm` and collects the evictions) against Layer B's cycle
+    `loopDecide → evRemove → evSub → evStore → evSpace → fill → loopDecide` (which applies each eviction at once),
+    from an arbitrary intermediate state. `s0` is the shared state before the first eviction; the Layer B state has
+    the evictions so far (`ev`, latest first) applied and `adm = a`. -/
+theorem loop_sim (c : PutCmd) (incEst : Nat) (s0 : State) (sw : SPc) (cl : List CPc) (res : List (List Out)) :
+    ∀ (fuelA : Nat) (a : Adm) (sample : List SKey) (o : Oracle) (ev : List Evicted) (pp : List SKey)
+      (wpc : WPc) (n : Nat),
+      SampleOK a.kw sample → a.kw.length < fuelA → 5 * fuelA ≤ n →
+      match createLoop s0.lfu s0.cfg.sampleSize c.w incEst fuelA a sample o ev pp with
+      | .ok r =>
+        contRun n (loopDecide ⟨{ ev.reverse.foldl applyEvict s0 with adm := a }, wpc, sw, cl, res, none, none⟩
+            c incEst sample (a.max - a.used) o) =
+          .ok (⟨(putEnd { r.evicted.foldl applyEvict s0 with adm := r.adm } c r.status).1,
+                (putEnd { r.evicted.foldl applyEvict s0 with adm := r.adm } c r.status).2,
+                sw, cl, res, none, none⟩, r.oracle)
+      | .error _ =>
+        ∃ m, contRun n (loopDecide ⟨{ ev.reverse.foldl applyEvict s0 with adm := a }, wpc, sw, cl, res, none, none⟩
+            c incEst sample (a.max - a.used) o) = .error m := by
+  intro fuelA
+  induction fuelA with
+  | zero => intro a sample o ev pp wpc n _ hlen; omega
+  | succ f ih =>
+    intro a sample o ev pp wpc n hok hlen hn
+    unfold createLoop loopDecide
+    by_cases hsp : a.max - a.used ≥ c.w
+    · simp only [hsp, if_true, contRun, WPc.atHead]
+      simp only [Bool.false_eq_true, if_false]
+      exact run_insert _ sw cl res o n c (by omega)
+    · simp only [hsp, if_false]
+      trace_state
+      sorry
+
 end B
 end Cached
